@@ -18,6 +18,7 @@ DOMAINS = {
     "terms": {"timeout": 2400},
     "bitset": {"timeout": 2400},
     "offline": {"timeout": 2400},
+    "serde": {"timeout": 2400},
     "solver": {"timeout": 3000},
     "faults": {"timeout": 3000},
 }
@@ -155,6 +156,20 @@ PROPS = {
         "exhaustive": True,
         "rule": "30 distinct add_dependencies calls (2 packages x 3 versions x 5 dependency lists incl. duplicates and unknown packages): all sequences of length 0..2 (quick) / 0..3 (thorough) + seeded sequences of length 3..7; after each history all queries (deps for 3x3 pairs incl. never-added, packages, versions, choose/prioritize for 6 sets). distinct = distinct history; non-trivial = histories with at least one call.",
         "assumptions": ["hash-map iteration order is irrelevant to the compared observations"],
+    },
+    "C19": {
+        "props": "Props/Properties_C19.v",
+        "level": "proof",
+        "technique": "Coq proof that the modelled JSON encoding of Range / SemanticVersion / OfflineDependencyProvider decodes back to the same value and that the legacy interval forms decode to start<=v<end / start<=v + correspondence of that encoding with serde_json (and ron for the legacy forms) on exhaustive small scopes",
+        "level_text": "13 Coq theorems over Model/Json.v (a JSON tree type with executable encoders/decoders mirroring what serde_json does for Bound, 2-tuples, Option, sequences, string versions and integer-keyed maps, and the untagged EitherInterval of src/range.rs, first matching variant wins): decode(encode r) = r for every segment list and any version payload that round-trips (instances: u32 numbers, SemanticVersion strings via C20's print/parse); [a,b] and [a,null] decode to Included(a)..Excluded(b) / Included(a)..Unbounded whenever a version's JSON is not itself a Bound encoding or null (proved for numbers and for a.b.c strings) and these are the sets a<=v<b / a<=v; integer map keys are exactly the canonical decimals <= u32::MAX; decode(encode p) = p for every provider with u32 packages/versions (in particular every add_dependencies history), hence every function of the provider value agrees after the round trip. Tie: serde_json::to_value / from_value / to_string / from_str on all 128 canonical ranges over 3 bound values x 3 construction trees, 216 grid versions, Range<SemanticVersion>, ~700 single-interval JSON trees built from 26 well- and ill-formed atoms plus thousands of multi-interval ones (legacy, new, mixed, wrong arity, wrong tags, non-arrays), the legacy forms as RON text in three layouts, provider histories of the C18 stream and 6000 random small registries (encoding as a sorted tree, all C18 queries after the round trip, resolve before/after on every root), malformed provider trees, and the repository's legacy RON fixture (641 roots).",
+        "level_note": "Trusted: Coq kernel, extraction, harness/driver. serde, serde_json, ron and the derive macros are NOT modelled: the theorems are about the encoding that model and implementation are observed to share on every run (floats and duplicate keys inside one JSON object are outside the model; RON is only exercised on the legacy forms, its alpha release cannot read back the new enum-valued bounds inside the untagged enum, as the property text says). Resolution after the round trip: the model theorem (resolve_after_roundtrip) is about functions of the provider VALUE; the implementation's round trip preserves the maps but not the FxHashMap iteration order, on which pubgrub::resolve depends. The check therefore enforces, on every root, the same kind of outcome and that every solution found after the round trip is a solution of the original registry (cases prov-resolve, fixture), and additionally runs the STRICT reading 'identical solution map / identical report text' (cases prov-resolve-identical, fixture-identical), whose failures on the unchanged tree are listed in known-findings.txt (KNOWN-FINDING line on every run) rather than hidden.",
+        "domains": ["serde"],
+        "obs_fields": {"serde": ["built", "enc", "dec", "str", "eq", "val", "q", "same", "str-same", "outcome-same", "ron-ok", "json-rt-same", "legacy-shape"]},
+        "exhaustive": True,
+        "rule": "rt-range: 128 canonical ranges over {10,20,30} x 3 API construction trees (thorough + 512 over 4 values); dec-range: every pair of 26 JSON atoms as one interval, 12 odd shapes, 13x13 core pairs, 4000 (thorough 60000) seeded lists of 2..4 intervals; dec-ron: 7x7 legacy tuples + arity/list variants x 3 text layouts + 2000 seeded lists; sv-json: grid {0,1,9,10,2^32-2,2^32-1}^3; dec-sv: all '.'-joined strings of <=3 of 12 parts; rt-range-sv: 32 (thorough 128) canonical ranges x 3 triples of versions incl. u32 extremes; dec-range-sv: 16x16 atoms; prov / prov-resolve: 30 single calls, half (thorough all) of the 900 pairs, 6000 (thorough 100000) seeded registries of <=6 packages x 3 versions x <=5 dependencies; dec-prov: 15 key spellings at each of the 3 map levels + malformed trees; fixture: test-examples/large_case_u16_NumberVersion.ron. distinct = distinct case text; non-trivial = every case.",
+        "assumptions": ["serde / serde_json 1.0 / ron 0.9.0-alpha.0 behaviour is modelled from observation (Model/Json.v header), validated by the correspondence on every run",
+                        "RON Some(x)/None are mapped to x/null only where an Option is expected (second tuple position)",
+                        "strict identity of resolve results after the round trip is NOT claimed (hash-map iteration order); see level_note and known-findings.txt"],
     },
     "C20": {
         "props": "Props/Properties_C20.v",
